@@ -40,7 +40,10 @@ def _seqdiff(a, b, cls):
 
 
 def norm_lit(t):
-    # line terminators inside multi-line literals follow `newlines` (C08); everything else is byte-exact
+    # line terminators inside multi-line literals follow `newlines` (C08); everything else is byte-exact.
+    # `operator "" _x` and `operator ""_x` are the same literal-operator-id ([over.literal]): the suffix is not part of a literal
+    if t.startswith('""_'):
+        t = '""'
     return t.replace('\r\n', '\n').replace('\r', '\n')
 
 
